@@ -450,7 +450,31 @@ def _poly_minimum(self, other):
 
 
 def _poly_compare(self, name, other):
-  raise Unsupported('comparison on polynomial operands (use the term domain)')
+  """Comparison of polynomial arrays: decided elementwise by interval arithmetic over the box (sound: a verdict is only returned
+  when the sign of a - b is the same for EVERY point of the box); an element whose sign is not definite makes the primitive
+  unsupported in this domain (a kink inside the box: use the term domain)."""
+  other = self._coerce(other) if hasattr(self, '_coerce') else other
+  d = self.add(other, -1.0)
+  lo, hi = d.bounds()
+  if name in ('lt', 'lt_to'):
+    yes, no = hi < 0, lo >= 0
+  elif name in ('le', 'le_to'):
+    yes, no = hi <= 0, lo > 0
+  elif name == 'gt':
+    yes, no = lo > 0, hi <= 0
+  elif name == 'ge':
+    yes, no = lo >= 0, hi < 0
+  elif name == 'eq':
+    yes, no = (lo == 0) & (hi == 0), (lo > 0) | (hi < 0)
+  elif name == 'ne':
+    yes, no = (lo > 0) | (hi < 0), (lo == 0) & (hi == 0)
+  else:
+    raise Unsupported(f'{name} on polynomial operands')
+  und = ~(yes | no)
+  if und.any():
+    raise Unsupported(f'comparison {name} on polynomial operands is not decided by interval arithmetic for {int(und.sum())} of {und.size} elements '
+                      '(a kink inside the box: use the term domain)')
+  return np.asarray(yes)
 
 
 def _poly_reduce(self, name, axes):
@@ -461,7 +485,7 @@ PolyArr.unary = _poly_unary
 PolyArr.maximum = _poly_maximum
 PolyArr.minimum = _poly_minimum
 PolyArr.compare = _poly_compare
-PolyArr.logical = _poly_compare
+PolyArr.logical = lambda self, name, other: (_ for _ in ()).throw(Unsupported(f'{name} on polynomial operands'))
 PolyArr.reduce = _poly_reduce
 PolyArr.cumulative = _poly_reduce
 PolyArr.lift = lambda self, c: PolyArr.const(np.broadcast_to(np.asarray(c, float), np.shape(c)), self.sp)
